@@ -83,6 +83,19 @@ def _alias_check(TLV, TlvParseException, data, label, expected=None):
                     pass
         except Exception:  # noqa: BLE001
             pass
+        # ... and the buffer stays the caller's own: a caller that keeps what the call gave it - the items, or the exception ("last error") -
+        # goes on appending to its buffer (read more bytes, decode again)
+        own = bytearray(data)
+        try:
+            kept = fn(own, **kw)
+        except Exception as e:  # noqa: BLE001
+            kept = e
+        try:
+            own.extend(b"\x00")
+            del own[-1:]
+        except BufferError as e:
+            out.append((f"{name}:callers-buffer-cannot-be-resized-while-the-{'error' if isinstance(kept, Exception) else 'result'}-of-the-call-is-kept", {"data": bytes(data)[:64], "label": label, "err": str(e)[:100]}))
+        del kept
         second = run(fn, buf)
         third = run(TLV.decode_bytes, bytes(data))
         if third != base:
